@@ -1,5 +1,6 @@
 mod asm;
 mod gen_asm;
+mod gen_cmd;
 mod gen_isa;
 mod gen_run;
 mod prog;
@@ -20,6 +21,7 @@ fn main() {
         ("gen", "asm") => gen_asm::main(&args),
         ("replay", "asm") => gen_asm::replay(&args),
         ("gen", "run") => gen_run::main(&args),
+        ("gen", "cmd") => gen_cmd::main(&args),
         (a, b) => {
             eprintln!("unknown command {a} {b}");
             std::process::exit(2);
